@@ -735,6 +735,80 @@ func ruleCloseBoxes(p *Prog, r *Report, sp *ssa.Package) {
 			} else {
 				r.OK("CLOSE", key, p.posStr(f.Pos()), "closed directly or by a handler that closes on all its non-failing paths ("+strings.Join(handlers, ", ")+")")
 			}
+			// failing paths too: once the box header has been read, every return — whatever a handler reported — is reached
+			// through a close() of the top-level box made here (a handler's own close is not credited: its failing returns
+			// skip it). "Bytes consumed per top-level box == its size" holds for every tree with well-formed sizes, also
+			// when the content of a box is not what its handler expects.
+			if entry != "ReadMetadata" {
+				return
+			}
+			key2 := "isobmff.(*Reader)." + entry + " | top-level box closed on every path once its header was read"
+			var start *ssa.BasicBlock
+			eachCall(f, func(site ssa.CallInstruction) {
+				sc := site.Common().StaticCallee()
+				if sc == nil || sc.Name() != "readBox" {
+					return
+				}
+				call, _ := site.(*ssa.Call)
+				if call == nil {
+					return
+				}
+				ex := tupleExtract(call, 1)
+				if ex == nil {
+					return
+				}
+				blk := site.Block()
+				if ifi, ok := blk.Instrs[len(blk.Instrs)-1].(*ssa.If); ok {
+					// the error may be tested directly or, with a deferred recover, after a round trip through the named result
+					if bo, ok := ifi.Cond.(*ssa.BinOp); ok && (isErrorType(bo.X.Type()) || isErrorType(bo.Y.Type())) && (isNilConst(bo.X) || isNilConst(bo.Y)) {
+						if bo.Op == token.NEQ {
+							start = blk.Succs[1]
+						} else if bo.Op == token.EQL {
+							start = blk.Succs[0]
+						}
+					}
+				}
+			})
+			if start == nil {
+				r.Undecided("CLOSE", key2, p.posStr(f.Pos()), "the error test after readBox was not recognised")
+				return
+			}
+			direct := map[*ssa.BasicBlock]bool{}
+			eachCall(f, func(site ssa.CallInstruction) {
+				if _, isDefer := site.(*ssa.Defer); isDefer {
+					return
+				}
+				if isBoxClose(site, boxAlloc) {
+					direct[site.Block()] = true
+				}
+			})
+			bad2 := ""
+			seen2 := map[*ssa.BasicBlock]bool{start: true}
+			st2 := []*ssa.BasicBlock{start}
+			for len(st2) > 0 && bad2 == "" {
+				b := st2[len(st2)-1]
+				st2 = st2[:len(st2)-1]
+				if direct[b] {
+					continue
+				}
+				if len(b.Instrs) > 0 {
+					if ret, ok := b.Instrs[len(b.Instrs)-1].(*ssa.Return); ok {
+						bad2 = "the return at " + p.posStr(instrPos(ret)) + " is reached without ReadMetadata closing the box itself: when the handler of that box type fails before its own close, the reader is left inside the box and the next call parses payload bytes as a box header"
+						continue
+					}
+				}
+				for _, s := range b.Succs {
+					if !seen2[s] {
+						seen2[s] = true
+						st2 = append(st2, s)
+					}
+				}
+			}
+			if bad2 != "" {
+				r.Bad("CLOSE", key2, p.posStr(f.Pos()), bad2)
+			} else {
+				r.OK("CLOSE", key2, p.posStr(f.Pos()), "every path from the header to a return passes a close() made by ReadMetadata itself")
+			}
 		}()
 	}
 }
